@@ -74,6 +74,7 @@ type FnCtx struct {
 	entryFrees map[*ssa.FreeVar]Val
 	useLines   bool // line-measure spec functions (mxl/fstl/lstl) are in play
 	cellsMode  bool // the cell model of ansi.expand is in play
+	strOrder   bool // nsx facts and associativity of concatenation are emitted
 	provMode   bool // embedded JSON values inherit the provenance (servedBy) of their document
 }
 
